@@ -1,6 +1,10 @@
 package c15
 
 import (
+	"encoding/json"
+	"fmt"
+
+	"github.com/cilium/statedb/reconciler"
 	"sync"
 	"testing"
 
@@ -48,5 +52,122 @@ func TestVerif_WriteBack(t *testing.T) {
 	r.Assume("bounded liveness in virtual time: 2 x RetryBackoffMax + (objects+5) x (limiter interval + 35 ms) + 1 s after failures and changes stop", "the reconciler is driven through hive's job group inside a synctest bubble; real-timer behaviour is out of scope")
 	r.Require("operation_attempts", "failed_attempts", "user_writes", "prune_calls")
 	run(t, r, vkit.N(6000, 120000), map[string]bool{"status": true}, false)
+	r.Finish()
+}
+
+// ---- StatusSet is a value: Set/Pending return new sets and leave every earlier one as it was ----
+
+const ruleSet = "StatusSet values (the status field of objects shared by several reconcilers, copied by value with every object clone): pool of versions, each step applies Set (8 reconciler names, " +
+	"Done/Error/Pending/Refreshing) or Pending() or a JSON round-trip to a random earlier version; after every step the result and three earlier versions are compared with a map model " +
+	"(Get of present and absent names, All); non-trivial = at least 5 versions with at least 3 reconcilers; distinct = hash of the operation sequence"
+
+type ssVersion struct {
+	set   reconciler.StatusSet
+	model map[string]reconciler.Status
+}
+
+func statusSetCase(r *vkit.Run, idx int) {
+	rng := r.Rand(idx)
+	names := []string{"a", "b", "c", "d", "e", "f", "g", "h"}
+	h := vkit.NewHash()
+	pool := []ssVersion{{set: reconciler.NewStatusSet(), model: map[string]reconciler.Status{}}}
+	var log []string
+	big := 0
+	check := func(what string, v ssVersion) bool {
+		all := v.set.All()
+		if len(all) != len(v.model) {
+			r.Violation("statusset/contents", idx, map[string]any{"message": fmt.Sprintf("%s: All() has %d entries, model %d", what, len(all), len(v.model)), "ops": log})
+			return false
+		}
+		for _, n := range names {
+			want, ok := v.model[n]
+			got := v.set.Get(n)
+			if ok {
+				a, inAll := all[n]
+				if !inAll || a.Kind != want.Kind || a.ID != want.ID || a.GetError() != want.GetError() || got.Kind != want.Kind || got.ID != want.ID || got.GetError() != want.GetError() {
+					r.Violation("statusset/contents", idx, map[string]any{"message": fmt.Sprintf("%s: reconciler %q has status %v (All: %v, present=%v), model %v", what, n, got, a, inAll, want), "ops": log})
+					return false
+				}
+			} else if got.Kind != reconciler.StatusKindPending {
+				r.Violation("statusset/contents", idx, map[string]any{"message": fmt.Sprintf("%s: absent reconciler %q reads %v, want Pending", what, n, got), "ops": log})
+				return false
+			}
+		}
+		return true
+	}
+	steps := 10 + rng.IntN(40)
+	for i := 0; i < steps; i++ {
+		base := pool[rng.IntN(len(pool))]
+		if rng.IntN(3) > 0 {
+			base = pool[len(pool)-1-rng.IntN(min(3, len(pool)))]
+		}
+		nv := ssVersion{model: map[string]reconciler.Status{}}
+		for k, v := range base.model {
+			nv.model[k] = v
+		}
+		switch x := rng.IntN(20); {
+		case x < 16:
+			n := names[rng.IntN(len(names))]
+			var st reconciler.Status
+			switch rng.IntN(4) {
+			case 0:
+				st = reconciler.StatusDone()
+			case 1:
+				st = reconciler.StatusError(fmt.Errorf("e%d", i))
+			case 2:
+				st = reconciler.StatusPending()
+			default:
+				st = reconciler.StatusRefreshing()
+			}
+			nv.set = base.set.Set(n, st)
+			nv.model[n] = st
+			log = append(log, fmt.Sprintf("v%d = v?.Set(%s, %s)", len(pool), n, st.Kind))
+			h.Str(n + st.Kind.String())
+		case x < 18:
+			nv.set = base.set.Pending()
+			id := nv.set.Get("no-such-reconciler").ID
+			for k, v := range nv.model {
+				v.Kind = reconciler.StatusKindPending
+				v.ID = id
+				nv.model[k] = v
+			}
+			log = append(log, fmt.Sprintf("v%d = v?.Pending()", len(pool)))
+			h.Str("pending")
+		default:
+			b, err := json.Marshal(base.set)
+			var out reconciler.StatusSet
+			if err == nil {
+				err = json.Unmarshal(b, &out)
+			}
+			if err != nil {
+				r.Violation("statusset/json", idx, map[string]any{"message": err.Error(), "ops": log})
+				return
+			}
+			nv.set = out
+			log = append(log, fmt.Sprintf("v%d = json(v?)", len(pool)))
+			h.Str("json")
+		}
+		pool = append(pool, nv)
+		if len(nv.model) >= 3 {
+			big++
+		}
+		if !check(fmt.Sprintf("v%d (new)", len(pool)-1), nv) {
+			return
+		}
+		for k := 0; k < 3; k++ {
+			j := rng.IntN(len(pool))
+			if !check(fmt.Sprintf("v%d re-read after step %d", j, i), pool[j]) {
+				return
+			}
+			r.Count("earlier_versions_reread", 1)
+		}
+	}
+	r.Case(h.Sum(), big >= 5)
+}
+
+func TestVerif_StatusSet(t *testing.T) {
+	r := vkit.Start(t, "C15", "statusset", "exploration", ruleSet)
+	r.Require("earlier_versions_reread")
+	r.ParallelCases(vkit.N(4000, 200000), vkit.Workers(), func(i int) { statusSetCase(r, i) })
 	r.Finish()
 }
